@@ -24,7 +24,7 @@ func (ial *IndentAwareLexer) NextToken() antlr.Token {
 	}
 	if ial.GetInputStream().Size() == 0 {
 		ial.hitEOF = true
-		return antlr.NewCommonToken(nil, antlr.TokenEOF, antlr.TokenDefaultChannel, -1, -1)
+		return antlr.NewCommonToken(ial.GetTokenSourceCharStreamPair(), antlr.TokenEOF, antlr.TokenDefaultChannel, -1, -1)
 	}
 
 	ial.checkNextToken()
@@ -91,7 +91,7 @@ func (ial *IndentAwareLexer) getLengthOfNewlineToken(currentToken antlr.Token) i
 	}
 
 	if sawSpaces && sawTabs {
-		panic("Indentation contains tabs and spaces")
+		ial.GetErrorListenerDispatch().SyntaxError(ial, nil, currentToken.GetLine(), currentToken.GetColumn(), "indentation contains tabs and spaces", nil)
 	}
 
 	return length
